@@ -79,3 +79,33 @@ def same(a, b) -> bool:
 def brief(t, n=200) -> str:
     s = show_norm(t)
     return s if len(s) <= n else s[: n - 3] + "..."
+
+
+def elementwise_same(I, a, b) -> bool:
+    """a == b as vectors: identical terms, or equal element by element (`[i -> f(i)]` against a pointwise ring
+    expression of vectors, `tuple(int(d) for d in dims)` against `dims`)."""
+    if same(a, b):
+        return True
+    from ..interp import fresh
+    from ..terms import subst
+
+    if a[0] != "lam" and b[0] != "lam":
+        return False
+    tag = a[2] if a[0] == "lam" else b[2]
+    i = fresh(tag)
+
+    def at(t):
+        e = subst(t[3], {t[1]: i}) if t[0] == "lam" else ("elem", t, (i,))
+        for _round in range(4):
+            m = {}
+            from ..terms import subterms
+            for x in subterms(e):
+                if x[0] == "elem" and x[2] == (i,) and x[1][0] == "poly":
+                    atoms = {a_ for mono, _c in x[1][1] for a_, _p in mono}
+                    m[x] = subst(x[1], {a_: ("elem", a_, (i,)) for a_ in atoms})
+            if not m:
+                break
+            e = subst(e, m)
+        return e
+
+    return same(at(a), at(b))
